@@ -364,7 +364,6 @@ func vtFeedCase(class int, rc vwNodeCfg, sender vwNodeCfg, stream []byte, f vtFe
 	return cs
 }
 
-var vwDiscard = newDiscardLogger()
 
 // one round: an initiator and a host under one random configuration
 func vtRound(r *vfRng, st *vfStats, allCuts bool) []vfCase {
